@@ -274,6 +274,10 @@ func opsFor(d *coll.Desc, nk, nv int, only map[string]bool) []coll.Op {
 // makes it grow.
 const growFill = 75
 
+func hasMethod(d *coll.Desc, name string) bool {
+	return reflect.ValueOf(d.New()).MethodByName(name).IsValid()
+}
+
 func prefills(d *coll.Desc) [][]coll.Op {
 	var k0, k1 reflect.Value
 	if d.KeyT != nil {
@@ -289,13 +293,22 @@ func prefills(d *coll.Desc) [][]coll.Op {
 		for _, k := range coll.FillerKeys(d, growFill) {
 			grow = append(grow, coll.MkOp("Put", k, v))
 		}
-		return [][]coll.Op{nil, {coll.MkOp("Put", k0, v)}, {coll.MkOp("Put", k0, v), coll.MkOp("Put", k1, v)}, grow}
+		out := [][]coll.Op{nil, {coll.MkOp("Put", k0, v)}, {coll.MkOp("Put", k0, v), coll.MkOp("Put", k1, v)}, grow}
+		if hasMethod(d, "SetMax") {
+			// bounded and full: the next new key evicts
+			out = append(out, []coll.Op{coll.MkOp("Put", k0, v), coll.MkOp("SetMax", reflect.ValueOf(1))})
+		}
+		return out
 	case "linkedset", "set":
 		var grow []coll.Op
 		for _, k := range coll.FillerKeys(d, growFill) {
 			grow = append(grow, coll.MkOp("Put", k))
 		}
-		return [][]coll.Op{nil, {coll.MkOp("Put", k0)}, {coll.MkOp("Put", k0), coll.MkOp("Put", k1)}, grow}
+		out := [][]coll.Op{nil, {coll.MkOp("Put", k0)}, {coll.MkOp("Put", k0), coll.MkOp("Put", k1)}, grow}
+		if hasMethod(d, "SetMax") {
+			out = append(out, []coll.Op{coll.MkOp("Put", k0), coll.MkOp("SetMax", reflect.ValueOf(1))})
+		}
+		return out
 	case "list":
 		return [][]coll.Op{nil, {coll.MkOp("Add", reflect.ValueOf("e0"))}, {coll.MkOp("Add", reflect.ValueOf("e0")), coll.MkOp("Add", reflect.ValueOf("e1"))}}
 	case "queue":
